@@ -598,3 +598,167 @@ func joinKeys(m map[string]bool) string {
 	}
 	return strings.Join(ks, ",")
 }
+
+// mutationSensitivity (thorough tier): per anchored function up to perFn mutants of different kinds, one mutant per function
+// per load, judged by the property's own rules.
+func mutationSensitivity(prog *Program, repo, verif, prop string, anchored map[string]bool, known map[string]bool, perFn int) (applied, reported, invalidN int) {
+	work := filepath.Join(verif, "work", fmt.Sprintf("mut%d", os.Getpid()))
+	os.MkdirAll(work, 0o755)
+	defer os.RemoveAll(work)
+	all := enumerateMutants(prog)
+	byFn := map[string][]*mutant{}
+	var fns []string
+	for _, m := range all {
+		if !anchored[m.Func] {
+			continue
+		}
+		// spread over kinds: keep the first mutant of each kind, up to perFn
+		dup := false
+		for _, o := range byFn[m.Func] {
+			if o.Kind == m.Kind {
+				dup = true
+			}
+		}
+		if dup || len(byFn[m.Func]) >= perFn {
+			continue
+		}
+		if byFn[m.Func] == nil {
+			fns = append(fns, m.Func)
+		}
+		byFn[m.Func] = append(byFn[m.Func], m)
+	}
+	sort.Strings(fns)
+	var ranges []funcRange
+	for _, pk := range prog.Pkgs {
+		for i, file := range pk.Syntax {
+			name := pk.CompiledGoFiles[i]
+			for _, d := range file.Decls {
+				if fd, ok := d.(*ast.FuncDecl); ok && fd.Body != nil {
+					fn := pk.Name + "." + fd.Name.Name
+					if obj, ok := pk.TypesInfo.Defs[fd.Name].(*types.Func); ok {
+						if sf := prog.SSA.FuncValue(obj); sf != nil {
+							fn = funcKey(sf)
+						}
+					}
+					ranges = append(ranges, funcRange{name, prog.Fset.Position(fd.Pos()).Line, prog.Fset.Position(fd.End()).Line, fn})
+				}
+			}
+		}
+	}
+	for round := 0; round < perFn; round++ {
+		var batch []*mutant
+		for _, f := range fns {
+			if round < len(byFn[f]) {
+				batch = append(batch, byFn[f][round])
+			}
+		}
+		if len(batch) == 0 {
+			break
+		}
+		viol, invalid, err := runVariantFor(repo, verif, work, prop, batch, ranges, known)
+		if err != nil {
+			invalidN += len(batch)
+			continue
+		}
+		for _, m := range batch {
+			switch {
+			case invalid[m.ID]:
+				invalidN++
+			case viol[m.Func]:
+				applied++
+				reported++
+			default:
+				applied++
+			}
+		}
+	}
+	return
+}
+
+// runVariantFor: like runVariant but with one property's rules only; returns the functions with a violation that is not a known finding.
+func runVariantFor(repo, verif, work, prop string, ms []*mutant, ranges []funcRange, known map[string]bool) (map[string]bool, map[int]bool, error) {
+	invalid := map[int]bool{}
+	live := append([]*mutant{}, ms...)
+	for round := 0; round < 30; round++ {
+		overlay, e := specOverlay(repo, filepath.Join(verif, "spec"))
+		if e != nil {
+			return nil, invalid, e
+		}
+		for k, v := range applyMutants(live) {
+			overlay[k] = v
+		}
+		prog, _, e := LoadWithSpecs(repo, work, overlay)
+		if e != nil {
+			le, ok := e.(*LoadError)
+			if !ok {
+				return nil, invalid, e
+			}
+			dropped := 0
+			for _, pe := range le.Errors {
+				file, line := splitPos(pe.Pos)
+				sites := [][2]string{{file, strconv.Itoa(line)}}
+				for _, mm := range errPosRe.FindAllStringSubmatch(pe.Msg, -1) {
+					f := mm[1]
+					if !filepath.IsAbs(f) {
+						f = filepath.Join(repo, "httpClient", f)
+					}
+					sites = append(sites, [2]string{filepath.Clean(f), mm[2]})
+				}
+				for _, st := range sites {
+					ln, _ := strconv.Atoi(st[1])
+					var keep []*mutant
+					for _, m := range live {
+						hit := false
+						if m.File == st[0] {
+							inFn := false
+							for _, r := range ranges {
+								if r.file == st[0] && ln >= r.start && ln <= r.end {
+									inFn = true
+									if r.fn == m.Func {
+										hit = true
+									}
+								}
+							}
+							if !inFn {
+								hit = true
+							}
+						}
+						if hit {
+							invalid[m.ID] = true
+							dropped++
+						} else {
+							keep = append(keep, m)
+						}
+					}
+					live = keep
+				}
+			}
+			if dropped == 0 {
+				return nil, invalid, fmt.Errorf("unattributable load error")
+			}
+			continue
+		}
+		c := NewCheck(prop, "selftest")
+		func() {
+			defer func() { recover() }()
+			registry[prop](prog, c)
+		}()
+		viol := map[string]bool{}
+		for _, o := range c.Obs {
+			if o.Status != Violated || known[o.Key] {
+				continue
+			}
+			parts := strings.SplitN(o.Key, "|", 3)
+			if len(parts) < 3 {
+				continue
+			}
+			fn := parts[1]
+			if i := strings.Index(fn, "$"); i >= 0 {
+				fn = fn[:i]
+			}
+			viol[fn] = true
+		}
+		return viol, invalid, nil
+	}
+	return nil, invalid, fmt.Errorf("variant could not be loaded")
+}
